@@ -12,7 +12,7 @@ import (
 
 func genDUID(t *rapid.T, i int) string {
 	mac := []byte{0x02, 0x00, 0x5e, 0x10, byte(i), byte(rapid.IntRange(0, 255).Draw(t, "mac-last"))}
-	switch rapid.IntRange(0, 6).Draw(t, "duid-kind") {
+	switch rapid.IntRange(0, 7).Draw(t, "duid-kind") {
 	case 0:
 		return gen.H(gen.DUIDLL(1, mac))
 	case 1:
@@ -28,9 +28,13 @@ func genDUID(t *rapid.T, i int) string {
 	case 5:
 		// DUID-LL with an 8-byte link-layer address
 		return gen.H(gen.DUIDLL(27, append(mac, 0xaa, byte(i))))
+	case 6:
+		// same link-layer address for every client, only the hardware type differs (incl. unregistered ones):
+		// distinct client identifiers
+		return gen.H(gen.DUIDLL([]uint16{0, 0x0100, 36, 0xffff, 1, 6}[i%6], []byte{0x02, 0x00, 0x5e, 0x10, 0xaa, 0xaa}))
 	default:
 		// same link-layer address as client 0 would have, other DUID kind: distinct client ids
-		return gen.H(gen.DUIDLLT(1, uint32(i+1), []byte{0x02, 0x00, 0x5e, 0x10, 0, 0}))
+		return gen.H(gen.DUIDLLT([]uint16{1, 0, 0x0100, 40}[i%4], 7, []byte{0x02, 0x00, 0x5e, 0x10, 0, 0}))
 	}
 }
 
